@@ -489,7 +489,7 @@ pub fn run(ctx: &Ctx, rep: &mut Report) {
         cases,
         check_seq,
     );
-    let n = ctx.cases(150_000, 3_000_000);
+    let n = ctx.cases(150_000, 15_000_000);
     run_prop(
         ctx,
         rep,
